@@ -5,6 +5,9 @@ import MitmVerif.Model.C35
 import MitmVerif.Model.C35_Spec
 import MitmVerif.Model.C35_Str
 import MitmVerif.Lemmas.C35Str
+import MitmVerif.Model.C35_Gen
+import MitmVerif.Lemmas.C35Gen
+import MitmVerif.Lemmas.C35Parse
 namespace MitmVerif.Props.C35
 open MitmVerif MitmVerif.C35
 open MitmVerif.C35.Spec (keq)
@@ -1016,6 +1019,66 @@ example : C35.setAll [([0x78, 0x2d, 0x61], [0x30])] [0x58, 0x2d, 0x41] [[0x31], 
     = [([0x78, 0x2d, 0x61], [0x31]), ([0x58, 0x2d, 0x41], [0x32])] := by decide
 
 
+/-! ### the validity hypothesis is not needed for headers the parser itself produced -/
+
+/-- **Whatever `_read_headers` accepts round-trips** — no validity hypothesis: if LF-free lines (as the line splitter
+    delivers them) parse to `fs`, including obs-fold continuation lines, empty values, odd bytes in names, then
+    `bytes(Headers(fs))` splits and parses back to exactly `fs`. -/
+theorem parsed_headers_roundtrip (ls : List Bytes) (fs : Fields)
+    (hlf : ∀ l ∈ ls, ∀ c ∈ l, c ≠ 0x0a) (h : readHeaders ls = .ok fs) :
+    readHeaders (splitLines (C35.toBytes fs)) = .ok fs := by
+  have hser : C35.toBytes fs = (ls.map ParseLemmas.canon).flatMap (fun l => l ++ crlf) := by
+    have := ParseLemmas.ser_parse ls [] fs h
+    rw [toBytes_eq]
+    simpa [ParseLemmas.ser, Spec.serialise, fieldLine] using this
+  have hno : ∀ l ∈ ls.map ParseLemmas.canon, ∀ c ∈ l, c ≠ 0x0a := by
+    intro l hl
+    obtain ⟨l0, hl0, rfl⟩ := List.mem_map.mp hl
+    exact ParseLemmas.canon_noLF l0 (hlf l0 hl0)
+  rw [hser, splitLines_block _ hno, readHeaders, ParseLemmas.readLoop_canon]
+  exact h
+
+private theorem splitLF_noLF (b : Bytes) : ∀ l ∈ splitLF b, ∀ c ∈ l, c ≠ 0x0a := by
+  induction b with
+  | nil => intro l hl c hc; simp [splitLF] at hl; subst hl; cases hc
+  | cons x xs ih =>
+    intro l hl c hc
+    by_cases hx : x = 0x0a
+    · simp only [splitLF, hx, if_true, List.mem_cons] at hl
+      rcases hl with e | e
+      · subst e; cases hc
+      · exact ih l e c hc
+    · simp only [splitLF, hx, if_false] at hl
+      cases hs : splitLF xs with
+      | nil => simp only [hs, List.mem_singleton] at hl; subst hl; simp at hc; subst hc; exact hx
+      | cons l0 ls0 =>
+        simp only [hs, List.mem_cons] at hl
+        rcases hl with e | e
+        · subst e
+          rcases List.mem_cons.mp hc with e2 | e2
+          · subst e2; exact hx
+          · exact ih l0 (by rw [hs]; simp) c e2
+        · exact ih l (by rw [hs]; simp [e]) c hc
+
+/-- a header block that was parsed once is a fixed point: parse ∘ serialise ∘ parse = parse -/
+theorem reparse_stable (block : Bytes) (fs : Fields) (h : readHeaders (splitLines block) = .ok fs) :
+    readHeaders (splitLines (C35.toBytes fs)) = .ok fs := by
+  apply parsed_headers_roundtrip (splitLines block) fs _ h
+  intro l hl c hc
+  simp only [splitLines, List.mem_map] at hl
+  obtain ⟨l0, hl0, rfl⟩ := hl
+  have hmem : l0 ∈ splitLF block := (List.dropLast_sublist _).subset hl0
+  have hc0 : c ∈ l0 := by
+    simp only [stripCR] at hc
+    split at hc
+    · exact (List.dropLast_sublist _).subset hc
+    · exact hc
+  exact splitLF_noLF block l0 hmem c hc0
+
+-- an obs-folded, oddly spaced block: "a:  1 \r\n\t x \r\nB:\r\n"  parses to [(a, "1\r\n x"), (B, "")] and that re-parses to itself
+example : readHeaders (splitLines [0x61, 0x3a, 0x20, 0x20, 0x31, 0x20, 0x0d, 0x0a, 0x09, 0x20, 0x78, 0x20, 0x0d, 0x0a, 0x42, 0x3a, 0x0d, 0x0a])
+    = .ok [([0x61], [0x31, 0x0d, 0x0a, 0x20, 0x78]), ([0x42], [])] := by rfl
+
 /-! ### the str/bytes boundary: what the API returns -/
 
 open MitmVerif.C35.Api (AOp ARet K1 KV)
@@ -1024,6 +1087,22 @@ open MitmVerif.C35.Api (AOp ARet K1 KV)
     the API hands out as `str` denotes the stored bytes again when it is handed back -/
 theorem native_roundtrip (b : Bytes) : encodeSE (native b) = some b :=
   StrLemmas.encode_decF b.length b (Nat.le_refl _)
+
+/-- **CPython's error handling is the model's.** Decoding with CPython's control flow — error ranges of one to three
+    bytes ("invalid start byte", "invalid continuation byte", "unexpected end of data"), every byte of the range escaped,
+    decoding resumed after the range — yields, for every byte string, the same `str` as the byte-at-a-time decoder
+    `native` that all other theorems are about. -/
+theorem nativeRange_eq_native (b : Bytes) : nativeRange b = native b :=
+  StrLemmas.decFR_eq_native b.length b (Nat.le_refl _)
+
+/-- hence the round trip holds for the CPython-shaped decoder as well -/
+theorem nativeRange_roundtrip (b : Bytes) : encodeSE (nativeRange b) = some b := by
+  rw [nativeRange_eq_native]; exact StrLemmas.encode_decF b.length b (Nat.le_refl _)
+
+-- truncated 4-byte sequence F0 90 80 at the end: one range of three bytes; E0 80: two ranges of one byte
+example : decStepR [0xf0, 0x90, 0x80] = ([0xdcf0, 0xdc90, 0xdc80], 3) := by decide
+example : decStepR [0xe0, 0x80] = ([0xdce0], 1) := by decide
+example : decStepR [0xe1, 0x80, 0x41] = ([0xdce1, 0xdc80], 2) := by decide
 
 theorem alwaysBytes_native (b : Bytes) : alwaysBytes (.s (native b)) = some b := native_roundtrip b
 
@@ -1205,21 +1284,21 @@ theorem api_returns (st : Store) (fs : Fields) (a : AOp) (op : Op)
   | plain o =>
     simp only [Api.lower, Option.some.injEq] at hl; subst hl
     cases o with
-    | iter t => simp [Api.ret, C35.apply, ARet.enc, encList_native]
-    | len t => simp [Api.ret, C35.apply, ARet.enc]
-    | eq t u => simp only [Api.ret, C35.apply]; cases st[u]? <;> simp [ARet.enc]
-    | copy t => simp [Api.ret, C35.apply, ARet.enc]
+    | iter t => simp [Api.POp.toOp, Api.ret, C35.apply, ARet.enc, encList_native]
+    | len t => simp [Api.POp.toOp, Api.ret, C35.apply, ARet.enc]
+    | eq t u => simp only [Api.POp.toOp, Api.ret, C35.apply]; cases st[u]? <;> simp [ARet.enc]
+    | copy t => simp [Api.POp.toOp, Api.ret, C35.apply, ARet.enc]
     | itemsMulti t =>
       have := encPairs_native fs id native (fun k => native_roundtrip k)
-      simp [Api.ret, C35.apply, ARet.enc, itemsMulti, this]
-    | items t => simp [Api.ret, C35.apply, ARet.enc, enc_api_items]
+      simp [Api.POp.toOp, Api.ret, C35.apply, ARet.enc, itemsMulti, this]
+    | items t => simp [Api.POp.toOp, Api.ret, C35.apply, ARet.enc, enc_api_items]
     | keys t m =>
       cases m
       · have h1 : Api.encList ((Api.items fs).map (·.1)) = some ((C35.items fs).map (·.1)) := by
           rw [api_items, items_total]; simpa [List.map_map, Function.comp_def] using encList_native (C35.iter fs)
-        simp [Api.ret, C35.apply, ARet.enc, C35.keys, h1]
+        simp [Api.POp.toOp, Api.ret, C35.apply, ARet.enc, C35.keys, h1]
       · have := encList_native (fs.map (·.1))
-        simp [Api.ret, C35.apply, ARet.enc, C35.keys, itemsMulti, List.map_map, Function.comp_def] at *
+        simp [Api.POp.toOp, Api.ret, C35.apply, ARet.enc, C35.keys, itemsMulti, List.map_map, Function.comp_def] at *
         simpa using this
     | values t m =>
       cases m
@@ -1231,34 +1310,22 @@ theorem api_returns (st : Store) (fs : Fields) (a : AOp) (op : Op)
             | nil => rfl
             | cons x l ih => simp [Api.encList, encode_fold, ih]
           simpa [List.map_map, Function.comp_def] using this (C35.iter fs)
-        simp [Api.ret, C35.apply, ARet.enc, C35.values, h1]
+        simp [Api.POp.toOp, Api.ret, C35.apply, ARet.enc, C35.values, h1]
       · have := encList_native (fs.map (·.2))
-        simp [Api.ret, C35.apply, ARet.enc, C35.values, itemsMulti, List.map_map, Function.comp_def] at *
+        simp [Api.POp.toOp, Api.ret, C35.apply, ARet.enc, C35.values, itemsMulti, List.map_map, Function.comp_def] at *
         simpa using this
     | popitem t =>
       cases fs with
-      | nil => simp [Api.ret, C35.apply, api_items, C35.popitem, C35.iter, iterLoop, ARet.enc]
+      | nil => simp [Api.POp.toOp, Api.ret, C35.apply, api_items, C35.popitem, C35.iter, iterLoop, ARet.enc]
       | cons e m =>
         have hit : C35.iter (e :: m) = e.1 :: C35.iter (m.filter (fun x => !keq x.1 e.1)) := by
           rw [iter_eq, firsts_cons, iter_eq]
         have hp := popitem_eq (e :: m)
         simp only [Spec.popFirst] at hp
-        simp only [Api.ret, C35.apply, api_items, hit, List.map_cons, hp]
+        simp only [Api.POp.toOp, Api.ret, C35.apply, api_items, hit, List.map_cons, hp]
         simp [ARet.enc, native_roundtrip, encode_fold, reduce_eq, getAll_eq]
-    | clear t => simp [Api.ret, C35.apply, ARet.enc]
-    | toBytes t => simp [Api.ret, C35.apply, ARet.enc]
-    | getItem t k => simp [Api.AOp.wf, Api.textFree] at hwf
-    | get t k => simp [Api.AOp.wf, Api.textFree] at hwf
-    | getAll t k => simp [Api.AOp.wf, Api.textFree] at hwf
-    | contains t k => simp [Api.AOp.wf, Api.textFree] at hwf
-    | setItem t k v => simp [Api.AOp.wf, Api.textFree] at hwf
-    | setAll t k vs => simp [Api.AOp.wf, Api.textFree] at hwf
-    | delItem t k => simp [Api.AOp.wf, Api.textFree] at hwf
-    | add t k v => simp [Api.AOp.wf, Api.textFree] at hwf
-    | insert t i k v => simp [Api.AOp.wf, Api.textFree] at hwf
-    | pop t k => simp [Api.AOp.wf, Api.textFree] at hwf
-    | setdefault t k d => simp [Api.AOp.wf, Api.textFree] at hwf
-    | update t ps => simp [Api.AOp.wf, Api.textFree] at hwf
+    | clear t => simp [Api.POp.toOp, Api.ret, C35.apply, ARet.enc]
+    | toBytes t => simp [Api.POp.toOp, Api.ret, C35.apply, ARet.enc]
 
 -- h = Headers([(b"X-\xc3\xa9", b"caf\xc3\xa9"), (b"x-\xc3\xa9", b"\xff")]); h["X-é"] == "café, \udcff"
 example : (Api.step [[([0x58, 0x2d, 0xc3, 0xa9], [0x63, 0x61, 0x66, 0xc3, 0xa9]), ([0x78, 0x2d, 0xc3, 0xa9], [0xff])]]
@@ -1302,5 +1369,180 @@ theorem api_run_refines (as : List AOp) : ∀ (st : Store) (ops : List Op),
 
 example : Api.lowerAll [[]] [.kv .setItem 0 (.s [0x41]) (.b [0x31]), .k1 .getItem 0 (.b [0x61])]
     = some [.setItem 0 [0x41] [0x31], .getItem 0 [0x61]] := by rfl
+
+
+/-- every call is well-formed by construction (calls without text arguments are their own type `POp`) -/
+theorem aop_wf (a : AOp) : a.wf = true := by
+  cases a with
+  | plain p => cases p <;> rfl
+  | _ => rfl
+
+/-- `api_returns` without the well-formedness hypothesis -/
+theorem api_returns_total (st : Store) (fs : Fields) (a : AOp) (op : Op)
+    (hfs : st[a.target]? = some fs) (hl : Api.lower fs a = some op)
+    (hup : ∀ t ps, a = .update t ps → (Api.convPairs ps).2 = true) :
+    ARet.enc (Api.step st a).2 = some (C35.step st op).2 :=
+  api_returns st fs a op hfs hl (aop_wf a) hup
+
+/-- an `update` that meets an unencodable pair has assigned exactly the pairs before it, then raises -/
+theorem api_update_partial (st : Store) (fs : Fields) (t : Nat) (ps : List (Arg × Arg))
+    (hfs : st[t]? = some fs) (hbad : (Api.convPairs ps).2 = false) :
+    Api.step st (.update t ps) = ((C35.step st (.update t (Api.convPairs ps).1)).1, .unicodeError) := by
+  have hfs' : st[(AOp.update t ps).target]? = some fs := hfs
+  simp only [Api.step, hfs', Api.lower, hbad, Bool.false_eq_true, if_false]
+
+/-- `api_run_refines` with the only hypothesis that is not derivable: the sequence raises no UnicodeEncodeError
+    (`lowerAll` succeeds and no `update` stops half-way) -/
+theorem api_run_refines_total (as : List AOp) (st : Store) (ops : List Op)
+    (h : Api.lowerAll st as = some ops)
+    (hup : ∀ t ps, AOp.update t ps ∈ as → (Api.convPairs ps).2 = true) :
+    Api.encTrace (Api.run st as) = some (Spec.run st ops) := by
+  apply api_run_refines as st ops h
+  intro a ha
+  cases a with
+  | update t ps => exact hup t ps ha
+  | plain p => show (AOp.plain p).wf = true; exact aop_wf _
+  | _ => rfl
+
+/-! ### `_MultiDict` as written (generic `_kconv`), `Headers` as its instance, and what carries over to `MultiDictView` -/
+
+section Generic
+open MitmVerif.MultiDictGen (keq)
+
+private theorem setAllLoop_inst (c : Bytes) (fs : Fields) : ∀ vs, C35.setAllLoop c fs vs = Gen.setAllLoop asciiLower c fs vs := by
+  induction fs with
+  | nil => intro vs; rfl
+  | cons f fs ih =>
+    intro vs
+    simp only [C35.setAllLoop, Gen.setAllLoop, kconv, ih]
+    split <;> (try cases vs) <;> rfl
+
+private theorem iterLoop_inst (fs : Fields) : ∀ seen, C35.iterLoop seen fs = Gen.iterLoop asciiLower seen fs := by
+  induction fs with
+  | nil => intro seen; rfl
+  | cons f fs ih =>
+    intro seen
+    simp only [C35.iterLoop, Gen.iterLoop, kconv, ih]
+
+/-- **`Headers` is the `_kconv = bytes.lower`, `_reduce_values = ", ".join` instance of the generic `_MultiDict`.**
+    Every method of the tied byte-level model equals the generic method at that instance, so the model that is compared
+    with the real `Headers` class is literally the shared `_MultiDict` code specialised. -/
+theorem headers_is_multidict_instance (fs : Fields) (k v : Bytes) (vs : List Bytes) (i : Int) :
+    C35.getAll fs k = Gen.getAll asciiLower fs k ∧
+    C35.getItem fs k = Gen.getItem asciiLower reduceValues fs k ∧
+    C35.contains fs k = Gen.contains asciiLower reduceValues fs k ∧
+    C35.setAll fs k vs = Gen.setAll asciiLower fs k vs ∧
+    C35.setItem fs k v = Gen.setItem asciiLower fs k v ∧
+    C35.delItem fs k = Gen.delItem asciiLower reduceValues fs k ∧
+    C35.insert fs i k v = Gen.insert fs i k v ∧
+    C35.add fs k v = Gen.add fs k v ∧
+    C35.iter fs = Gen.iter asciiLower fs ∧
+    C35.len fs = Gen.len asciiLower fs := by
+  refine ⟨rfl, rfl, rfl, ?_, ?_, rfl, rfl, rfl, ?_, rfl⟩
+  · simp only [C35.setAll, Gen.setAll, kconv, setAllLoop_inst]
+  · simp only [C35.setItem, Gen.setItem, C35.setAll, Gen.setAll, kconv, setAllLoop_inst]
+  · simp only [C35.iter, Gen.iter, iterLoop_inst]
+
+variable {α β γ σ : Type} [BEq γ] [LawfulBEq γ]
+
+/-- **the multimap laws hold for `_MultiDict` with ANY `_kconv`** (so for `MultiDict` and `MultiDictView`, where it is
+    the identity, exactly as for `Headers`): assignment, other names, untouched fields, deletion -/
+theorem multidict_laws (kc : α → γ) (red : List β → β) (fs : List (α × β)) (k : α) (vs : List β) :
+    (∀ k', keq kc k' k = true → Gen.getAll kc (Gen.setAll kc fs k vs) k' = vs) ∧
+    (∀ k', keq kc k' k = false → Gen.getAll kc (Gen.setAll kc fs k vs) k' = Gen.getAll kc fs k') ∧
+    (Gen.setAll kc fs k vs).filter (fun f => !keq kc f.1 k) = fs.filter (fun f => !keq kc f.1 k) ∧
+    (Gen.delItem kc red fs k = none ↔ Gen.getAll kc fs k = []) ∧
+    (∀ fs', Gen.delItem kc red fs k = some fs' →
+        fs' = fs.filter (fun f => !keq kc f.1 k) ∧ Gen.getAll kc fs' k = [] ∧
+        ∀ k', keq kc k' k = false → Gen.getAll kc fs' k' = Gen.getAll kc fs k') :=
+  ⟨fun k' h => MultiDictGen.getAll_setAll kc fs k k' vs h,
+   fun k' h => MultiDictGen.getAll_setAll_other kc fs k k' vs h,
+   MultiDictGen.untouched kc fs k vs,
+   (MultiDictGen.del_removes_all_only kc red fs k).1,
+   (MultiDictGen.del_removes_all_only kc red fs k).2⟩
+
+/-- iteration, length and insertion of the generic `_MultiDict` -/
+theorem multidict_iter_len_insert (kc : α → γ) (fs : List (α × β)) (i : Int) (k : α) (v : β) :
+    Gen.len kc fs = (Gen.iter kc fs).length ∧ ((Gen.iter kc fs).map kc).Nodup ∧
+    (∀ f ∈ fs, kc f.1 ∈ (Gen.iter kc fs).map kc) ∧
+    (∀ k ∈ Gen.iter kc fs, (fs.find? (fun f => keq kc f.1 k)).map (·.1) = some k) ∧
+    List.Sublist (Gen.iter kc fs) (fs.map (·.1)) ∧
+    (Gen.insert fs i k v)[pyIndex fs.length i]? = some (k, v) ∧
+    (Gen.insert fs i k v).eraseIdx (pyIndex fs.length i) = fs :=
+  ⟨(MultiDictGen.len_eq_distinct kc fs).1, (MultiDictGen.len_eq_distinct kc fs).2.1,
+   (MultiDictGen.len_eq_distinct kc fs).2.2.1,
+   (MultiDictGen.iter_first_occurrence_spelling kc fs).1, (MultiDictGen.iter_first_occurrence_spelling kc fs).2,
+   (MultiDictGen.insert_at fs i k v).1, (MultiDictGen.insert_at fs i k v).2⟩
+
+/-- **what carries over to `MultiDictView`** (request.query, cookies, urlencoded_form, …).  The view runs the same
+    `_MultiDict` methods on `getter()` and stores the result with `setter()`.  PROVIDED the parent gives back what was
+    stored (`getter() after setter(fs)` is `fs` — for query strings and cookies that is a codec round trip, the
+    subject of C34, and it does fail for some values), a view obeys the multimap laws on the parent's fields:
+    assignment is read back, other keys and untouched fields are unaffected, deletion removes all and only the key. -/
+theorem view_carries_over (kc : α → γ) (red : List β → β) (L : Gen.Lens σ α β)
+    (hL : ∀ p fs, L.get (L.set p fs) = fs) (p : σ) (k : α) (vs : List β) :
+    (∀ k', keq kc k' k = true → Gen.View.getAll kc L (Gen.View.setAll kc L p k vs) k' = vs) ∧
+    (∀ k', keq kc k' k = false →
+        Gen.View.getAll kc L (Gen.View.setAll kc L p k vs) k' = Gen.View.getAll kc L p k') ∧
+    (L.get (Gen.View.setAll kc L p k vs)).filter (fun f => !keq kc f.1 k) = (L.get p).filter (fun f => !keq kc f.1 k) ∧
+    (∀ p', Gen.View.delItem kc red L p k = some p' →
+        L.get p' = (L.get p).filter (fun f => !keq kc f.1 k)) ∧
+    Gen.View.len kc L p = (Gen.View.iter kc L p).length := by
+  refine ⟨?_, ?_, ?_, ?_, ?_⟩
+  · intro k' h; simp only [Gen.View.getAll, Gen.View.setAll, hL]; exact MultiDictGen.getAll_setAll kc _ k k' vs h
+  · intro k' h; simp only [Gen.View.getAll, Gen.View.setAll, hL]; exact MultiDictGen.getAll_setAll_other kc _ k k' vs h
+  · simp only [Gen.View.setAll, hL]; exact MultiDictGen.untouched kc _ k vs
+  · intro p' h
+    simp only [Gen.View.delItem, Option.map_eq_some_iff] at h
+    obtain ⟨fs', hfs', rfl⟩ := h
+    rw [hL]; exact ((MultiDictGen.del_removes_all_only kc red _ k).2 fs' hfs').1
+  · exact (MultiDictGen.len_eq_distinct kc _).1
+
+/-- **whole histories carry over.** Under the getter/setter law, ANY sequence of method calls on a `MultiDictView`
+    returns what the same sequence returns on a free-standing `MultiDict` started with the parent's fields, and the
+    getter shows that MultiDict's fields after every call. -/
+theorem view_run_refines (kc : α → γ) (red : List β → β) (L : Gen.Lens σ α β)
+    (hL : ∀ p fs, L.get (L.set p fs) = fs) (ops : List (Gen.MOp α β)) : ∀ p : σ,
+    Gen.View.runOps kc red L p ops = Gen.runOps kc red (L.get p) ops := by
+  induction ops with
+  | nil => intro p; rfl
+  | cons op ops ih =>
+    intro p
+    simp only [Gen.View.runOps, Gen.runOps, Gen.View.stepOp]
+    cases h : (Gen.stepOp kc red (L.get p) op).1 with
+    | none => simp [ih]
+    | some fs' => simp [hL, ih]
+
+/-- reused positions keep their spelling, created fields carry the caller's — for any `_kconv` -/
+theorem multidict_fresh_key (kc : α → γ) (fs : List (α × β)) (k : α) (vs : List β)
+    (h : Gen.getAll kc fs k = []) : Gen.setAll kc fs k vs = fs ++ vs.map (fun v => (k, v)) := by
+  have hnone : ∀ f ∈ fs, (kc f.1 == kc k) = false := by
+    intro f hf
+    cases hk : (kc f.1 == kc k) with
+    | false => rfl
+    | true =>
+      have : f.2 ∈ Gen.getAll kc fs k := by
+        simp only [Gen.getAll, List.mem_filterMap]
+        exact ⟨f, hf, by simp [hk]⟩
+      rw [h] at this; cases this
+  have hloop : ∀ (m : List (α × β)) (ws : List β), (∀ f ∈ m, (kc f.1 == kc k) = false) →
+      Gen.setAllLoop kc (kc k) m ws = (m, ws) := by
+    intro m
+    induction m with
+    | nil => intro ws _; rfl
+    | cons e m ih =>
+      intro ws hm
+      have he := hm e (by simp)
+      simp only [Gen.setAllLoop, he, Bool.false_eq_true, if_false, ih ws (fun f hf => hm f (by simp [hf]))]
+  simp only [Gen.setAll, hloop fs vs hnone]
+
+end Generic
+
+-- `MultiDictView` keys are case-SENSITIVE (`_kconv = id`): "a" and "A" are different keys there, one key in `Headers`
+example : Gen.getAll (id : Bytes → Bytes) [([0x61], [0x31]), ([0x41], [0x32])] [0x61] = [[0x31]] := by decide
+example : C35.getAll [([0x61], [0x31]), ([0x41], [0x32])] [0x61] = [[0x31], [0x32]] := by decide
+-- without the getter/setter law nothing carries over: a parent that drops what is stored
+example : Gen.View.getAll (id : Bytes → Bytes) (⟨fun _ => [], fun p _ => p⟩ : Gen.Lens Unit Bytes Bytes)
+    (Gen.View.setAll id ⟨fun _ => [], fun p _ => p⟩ () [0x61] [[0x31]]) [0x61] = [] := by decide
 
 end MitmVerif.Props.C35
